@@ -24,7 +24,10 @@ Import ListNotations.
 Ltac split_innermost x :=
   lazymatch x with
   | context [match ?y with _ => _ end] => split_innermost y
-  | _ => destruct x
+  | _ => lazymatch type of x with
+         | bool => let E := fresh "Ec" in destruct x eqn:E; zb E    (* a test: remember its outcome as a fact *)
+         | _ => destruct x
+         end
   end.
 Ltac crunch1 :=
   match goal with
@@ -115,7 +118,8 @@ Proof.
   assert (Hstep : step_ok body).
   { intros w0 printed l0. subst body. unfold m_step, m_save, py_save_session, py_self_mode.
     cbn [str_eqb N.eqb Pos.eqb andb].
-    crunch; try reflexivity; try (left; reflexivity); try (right; split; [reflexivity|eexists; reflexivity]). }
+    crunch; try reflexivity; try (left; reflexivity); try (right; split; [reflexivity|eexists; reflexivity]);
+      exfalso; lia. (* the two sides may spell a test differently (`a <= 0`, `not a > 0`): mixed outcomes are impossible *) }
   pose proof (loop_eq body kk oo Hstep (fun _ _ _ => eq_refl) (fun _ _ _ => eq_refl)) as L.
   unfold m_prologue, m_save, py_save_session, py_self_mode. cbn [str_eqb N.eqb Pos.eqb andb].
   destruct load_session; cbv beta iota zeta delta [negb].
@@ -329,3 +333,77 @@ Example session_world_example :
     {| out := [10; 11; 20; 21]; saved_at := Some 2; omen_saved := Some (1, 2); finished := false |} /\
   sw_saves (snd (src_run sch pts [] (fun _ _ => []) 4 false None (w_init None None))) = [(None, None); (Some 2, Some 2)].
 Proof. cbv zeta. repeat split; vm_compute; reflexivity. Qed.
+
+(* ====================================================================== *)
+(* keypress: which flag a 'q' sets and when the thread ends                 *)
+(* ====================================================================== *)
+Definition src_keypress (fuel : nat) (w : kworld) : sres unit * list nat * kworld :=
+  py_keypress k_set_should_exit k_read_input k_main_thread_is_alive k_stderr k_stderr k_stderr fuel w.
+
+(* one iteration of the translated loop of keypress, in the world of the thread *)
+Definition k_step (w : kworld) (printed : list nat) : lctl (sres unit * list nat * kworld) (kworld * list nat) :=
+  match kw_inputs w with
+  | [] => LReturn (SOk tt, printed, w)
+  | KErr :: r => LReturn (SOk tt, printed, mkK r (kw_stderr w) (kw_main_alive w) (kw_flag w))
+  | KLine s ok :: r =>
+      let w1 := mkK r ok (kw_main_alive w) (kw_flag w) in
+      if negb (kw_main_alive w) then LReturn (SOk tt, printed, w1)
+      else if negb ok then LReturn (SOk tt, printed, w1)
+      else if str_eqb s [113%N] then LReturn (SOk tt, printed, k_set_should_exit w1)
+      else LContinue (w1, printed)
+  end.
+
+Lemma keypress_loop : forall (body : kworld * list nat -> lctl (sres unit * list nat * kworld) (kworld * list nat)) k oof,
+  (forall w printed, body (w, printed) = k_step w printed) ->
+  forall ins fuel w printed, kw_inputs w = ins -> length ins < fuel ->
+  exists w', while_loop fuel body (w, printed) k oof = (SOk tt, printed, w') /\
+    kw_flag w' = should_exit (h_steps {| alive := true; should_exit := kw_flag w |} (kp_trace (kw_main_alive w) ins)) /\
+    alive (h_steps {| alive := true; should_exit := kw_flag w |} (kp_trace (kw_main_alive w) ins)) = false.
+Proof.
+  intros body k oof Hb. induction ins as [|i r IH]; intros fuel w printed Hi Hf;
+    (destruct fuel as [|fuel]; [cbn in Hf; lia|]); rewrite while_loop_S, Hb; unfold k_step; rewrite Hi.
+  - exists w. repeat split; reflexivity.
+  - destruct i as [s ok|]; [|eexists; repeat split; reflexivity].
+    cbn [kp_trace]. destruct (kw_main_alive w) eqn:Ea; cbn [negb]; [|eexists; repeat split; reflexivity].
+    destruct ok; cbn [negb]; [|eexists; repeat split; reflexivity].
+    destruct (str_eqb s [113%N]); [eexists; repeat split; reflexivity|].
+    destruct (IH fuel (mkK r true true (kw_flag w)) printed eq_refl ltac:(cbn in Hf; lia)) as [w' [-> [H1 H2]]].
+    cbn [kw_main_alive kw_flag] in H1, H2. exists w'. split; [reflexivity|].
+    assert (Hs : forall e, e = EvHelp \/ e = EvStatus ->
+                 h_steps {| alive := true; should_exit := kw_flag w |} (e :: kp_trace true r) =
+                 h_steps {| alive := true; should_exit := kw_flag w |} (kp_trace true r)).
+    { intros e [-> | ->]; reflexivity. }
+    rewrite Hs by (destruct (str_eqb s [104%N]); auto). auto.
+Qed.
+
+(* the translated keypress: for every list of inputs it ends (fuel above their number is never
+   exhausted), writes nothing to stdout, and leaves the quit flag exactly as the events
+   [kp_trace] of Session.v say (h_step: EvQuitFlag sets it, everything else leaves it); in
+   particular without a 'q' line the flag stays as it was *)
+Theorem keypress_is_trace : forall fuel w, length (kw_inputs w) < fuel ->
+  exists w', src_keypress fuel w = (SOk tt, [], w') /\
+    kw_flag w' = should_exit (h_steps {| alive := true; should_exit := kw_flag w |}
+                                      (kp_trace (kw_main_alive w) (kw_inputs w))) /\
+    alive (h_steps {| alive := true; should_exit := kw_flag w |} (kp_trace (kw_main_alive w) (kw_inputs w))) = false.
+Proof.
+  intros fuel w Hf. unfold src_keypress, py_keypress.
+  match goal with |- context [while_loop fuel ?b _ ?k ?o] => set (body := b); set (kk := k); set (oo := o) end.
+  apply (keypress_loop body kk oo); [|reflexivity|exact Hf].
+  (* one iteration of the generated body against k_step *)
+  intros w0 printed. subst body. unfold k_step, k_read_input, k_main_thread_is_alive, k_stderr, k_set_should_exit.
+  destruct w0 as [ins se ma fl]. cbn [kw_inputs kw_stderr kw_main_alive kw_flag].
+  destruct ins as [|[s ok|] r]; try reflexivity.
+  cbv beta iota zeta delta [sbind]. cbn [kw_inputs kw_stderr kw_main_alive kw_flag].
+  destruct ma; cbn [negb]; [|reflexivity].
+  destruct ok; cbv beta iota zeta delta [sbind negb]; cbn [kw_inputs kw_stderr kw_main_alive kw_flag]; [|reflexivity].
+  destruct (str_eqb s [113%N]); [reflexivity|].
+  destruct (str_eqb s [104%N]); reflexivity.
+Qed.
+
+Example keypress_example :
+  src_keypress 5 (mkK [KLine [] true; KLine [104%N] true; KLine [113%N] true; KLine [] true] true true false)
+  = (SOk tt, [], mkK [KLine [] true] true true true) /\
+  src_keypress 5 (mkK [KLine [] true; KLine [113%N] false] true true false) = (SOk tt, [], mkK [] false true false) /\
+  kp_trace true [KLine [] true; KLine [104%N] true; KLine [113%N] true; KLine [] true]
+  = [EvStatus; EvHelp; EvQuitFlag; EvThreadEnds].
+Proof. repeat split; vm_compute; reflexivity. Qed.
